@@ -139,32 +139,27 @@ Fixpoint scan_string (s : bytes) : option (bytes * bytes) :=
               if is_surrogate rr then
                 (* a valid pair is consumed as one rune; otherwise U+FFFD and
                    the following escape is processed on its own *)
-                match r2 with
-                | 92 :: 117 :: g1 :: g2 :: g3 :: g4 :: r3 =>
-                  match hex4 g1 g2 g3 g4 with
-                  | Some rr1 =>
-                    if is_high rr && is_low rr1 then
-                      match scan_string r3 with
-                      | Some (o, rest) =>
-                          Some (encode_rune (65536 + (rr - 55296) * 1024 + (rr1 - 56320)) ++ o, rest)
-                      | None => None
-                      end
-                    else
-                      match scan_string r2 with
-                      | Some (o, rest) => Some (replacement ++ o, rest)
-                      | None => None
-                      end
-                  | None =>
-                      match scan_string r2 with
-                      | Some (o, rest) => Some (replacement ++ o, rest)
-                      | None => None
-                      end
-                  end
-                | _ =>
+                let lone (_ : unit) :=
                   match scan_string r2 with
                   | Some (o, rest) => Some (replacement ++ o, rest)
                   | None => None
-                  end
+                  end in
+                match r2 with
+                | e1 :: e2 :: g1 :: g2 :: g3 :: g4 :: r3 =>
+                  if (e1 =? 92) && (e2 =? 117) then           (* a following \u escape *)
+                    match hex4 g1 g2 g3 g4 with
+                    | Some rr1 =>
+                      if is_high rr && is_low rr1 then
+                        match scan_string r3 with
+                        | Some (o, rest) =>
+                            Some (encode_rune (65536 + (rr - 55296) * 1024 + (rr1 - 56320)) ++ o, rest)
+                        | None => None
+                        end
+                      else lone tt
+                    | None => lone tt
+                    end
+                  else lone tt
+                | _ => lone tt
                 end
               else
                 match scan_string r2 with
